@@ -41,28 +41,68 @@ type replayCase struct {
 }
 
 // child is one decoding process.
+// tailBuf keeps the last bytes a child wrote to stderr (the Go runtime prints the reason of a fatal
+// error there).
+type tailBuf struct {
+	mu sync.Mutex
+	b  []byte
+}
+
+func (t *tailBuf) Write(p []byte) (int, error) {
+	t.mu.Lock()
+	t.b = append(t.b, p...)
+	if len(t.b) > 3000 {
+		t.b = t.b[len(t.b)-3000:]
+	}
+	t.mu.Unlock()
+	return len(p), nil
+}
+
+func (t *tailBuf) String() string {
+	t.mu.Lock()
+	defer t.mu.Unlock()
+	s := string(t.b)
+	if i := strings.Index(s, "\n\ngoroutine "); i > 0 {
+		s = s[:i] // the reason, not the goroutine dump
+	}
+	if len(s) > 600 {
+		s = s[:600]
+	}
+	return s
+}
+
 type child struct {
+	errTail *tailBuf
 	cmd     *exec.Cmd
 	in      io.WriteCloser
 	out     *bufio.Reader
 	careful bool
 }
 
-func startChild(careful bool) *child {
+// confirmTimeout is the watchdog of the confirmation run of a case that exceeded caseTimeout.
+const confirmTimeout = 60
+
+func startChild(careful bool) *child { return startChildT(careful, 0) }
+
+func startChildT(careful bool, timeoutSec int) *child {
 	args := []string{"-c12child"}
 	if careful {
 		args = append(args, "-c12careful")
 	}
 	cmd := exec.Command(os.Args[0], args...)
 	cmd.Env = append(os.Environ(), "GOMAXPROCS=2")
-	cmd.Stderr = io.Discard // a dying runtime prints its goroutine dump there; the parent reports the death itself
+	if timeoutSec > 0 {
+		cmd.Env = append(cmd.Env, fmt.Sprintf("VERIF_C12_TIMEOUT=%d", timeoutSec))
+	}
+	tail := &tailBuf{}
+	cmd.Stderr = tail
 	in, _ := cmd.StdinPipe()
 	out, _ := cmd.StdoutPipe()
 	if err := cmd.Start(); err != nil {
 		fmt.Fprintln(os.Stderr, "ENGINE-ERROR: cannot start decoding child:", err)
 		os.Exit(2)
 	}
-	return &child{cmd: cmd, in: in, out: bufio.NewReaderSize(out, 1<<20), careful: careful}
+	return &child{errTail: tail, cmd: cmd, in: in, out: bufio.NewReaderSize(out, 1<<20), careful: careful}
 }
 
 func (c *child) stop() {
@@ -72,8 +112,11 @@ func (c *child) stop() {
 }
 
 type outcome struct {
-	rep     *reply
-	hang    *struct{ Idx int; Op, Input string }
+	rep  *reply
+	hang *struct {
+		Idx       int
+		Op, Input string
+	}
 	died    bool
 	lastIdx int // careful mode: last case index announced
 }
@@ -98,7 +141,10 @@ func (c *child) run(sh shard) outcome {
 				Op, Input string
 			}{}
 			json.Unmarshal(line[2:], h)
-			return outcome{hang: &struct{ Idx int; Op, Input string }{h.Idx, h.Op, h.Input}}
+			return outcome{hang: &struct {
+				Idx       int
+				Op, Input string
+			}{h.Idx, h.Op, h.Input}}
 		case len(line) > 2 && line[0] == 'R':
 			rep := &reply{}
 			if err := json.Unmarshal(line[2:], rep); err != nil {
@@ -111,17 +157,19 @@ func (c *child) run(sh shard) outcome {
 
 // runner executes shards on children and folds the results into the Explore.
 type runner struct {
-	e        *vlib.Explore
-	mu       sync.Mutex
-	decoded  int64
-	gates    int64
-	types    map[string]int64
-	deaths   int
-	hangs    int
-	shards   int
-	engErr   string
-	perFam   map[string]int64
-	seen     []string
+	e       *vlib.Explore
+	mu      sync.Mutex
+	decoded int64
+	gates   int64
+	types   map[string]int64
+	deaths  int
+	hangs   int
+	slow    int
+	shards  int
+	engErr  string
+	perFam  map[string]int64
+	seen    []string
+	viols   map[string]*vrec
 }
 
 func (r *runner) fold(sh shard, rep *reply) {
@@ -142,9 +190,7 @@ func (r *runner) fold(sh shard, rep *reply) {
 	for _, v := range rep.Viols {
 		one := sh
 		one.Start, one.Limit = v.Idx, 1
-		for i := 0; i < v.Count; i++ {
-			r.violation(v.Sig, v.Detail, replayCase{Shard: one, Idx: v.Idx, Input: v.Input, What: "violation"})
-		}
+		r.violationN(v.Sig, v.Detail, replayCase{Shard: one, Idx: v.Idx, Input: v.Input, What: "violation"}, v.Len, v.Count)
 	}
 	if rep.Sample != nil {
 		r.e.Sample(rep.Sample)
@@ -168,20 +214,40 @@ func (r *runner) exec(c **child, sh shard) {
 		case o.hang != nil:
 			one := sh
 			one.Start, one.Limit = o.hang.Idx, 1
-			r.mu.Lock()
-			r.hangs++
-			r.mu.Unlock()
-			r.e.CaseN(sh.family(), 1)
-			r.violation("C12.hang:"+sh.Enc+":"+sh.family()+":"+o.hang.Op, fmt.Sprintf("a call into the codec did not return within %v [%s; %s; case %d] input=%s", caseTimeout, sh.family(), sh.Entry, o.hang.Idx, o.hang.Input),
-				replayCase{Shard: one, Idx: o.hang.Idx, Input: o.hang.Input, What: "hang"})
 			(*c).stop()
+			// confirm in a fresh child with a generous limit: the machine may just be busy
+			cc := startChildT(false, confirmTimeout)
+			o2 := cc.run(one)
+			cc.stop()
 			*c = startChild(false)
+			if o2.rep != nil {
+				r.mu.Lock()
+				r.slow++
+				r.mu.Unlock()
+				r.fold(one, o2.rep)
+			} else {
+				r.mu.Lock()
+				r.hangs++
+				r.mu.Unlock()
+				r.e.CaseN(sh.family(), 1)
+				what := fmt.Sprintf("a call into the codec did not return within %v and, re-run alone, not within %ds", caseTimeout, confirmTimeout)
+				if o2.died {
+					what = fmt.Sprintf("a call into the codec did not return within %v and, re-run alone, the process died", caseTimeout)
+				}
+				r.violation("C12.hang:"+sh.Enc+":"+sh.family()+":"+o.hang.Op, fmt.Sprintf("%s [%s; %s; case %d] input=%s", what, sh.family(), sh.Entry, o.hang.Idx, o.hang.Input),
+					replayCase{Shard: one, Idx: o.hang.Idx, Input: o.hang.Input, What: "hang"})
+			}
 			if !r.resume(c, &sh, o.hang.Idx) {
 				return
 			}
 		case o.died:
 			wasCareful := (*c).careful
 			(*c).stop()
+			stderr := (*c).errTail.String()
+			if ps := (*c).cmd.ProcessState; ps != nil && ps.ExitCode() == 2 {
+				fmt.Fprintf(os.Stderr, "ENGINE-ERROR: decoding child failed on shard %+v: %s\n", sh, stderr)
+				os.Exit(2)
+			}
 			if !wasCareful {
 				// find the culprit: same shard again, the child announces every case
 				*c = startChild(true)
@@ -198,7 +264,7 @@ func (r *runner) exec(c **child, sh shard) {
 			one := sh
 			one.Start, one.Limit = o.lastIdx, 1
 			r.e.CaseN(sh.family(), 1)
-			r.violation("C12.process-death:"+sh.Enc+":"+sh.family(), fmt.Sprintf("the process dies while the codec works on an input [%s; %s; case %d]", sh.family(), sh.Entry, o.lastIdx),
+			r.violation("C12.process-death:"+sh.Enc+":"+sh.family(), fmt.Sprintf("the process dies while the codec works on an input [%s; %s; case %d]: %s", sh.family(), sh.Entry, o.lastIdx, stderr),
 				replayCase{Shard: one, Idx: o.lastIdx, What: "process-death"})
 			*c = startChild(false)
 			if !r.resume(c, &sh, o.lastIdx) {
@@ -256,7 +322,7 @@ func main() {
 		return
 	}
 	e := vlib.StartExplore("C12")
-	r := &runner{e: e, types: map[string]int64{}, perFam: map[string]int64{}}
+	r := &runner{e: e, types: map[string]int64{}, perFam: map[string]int64{}, viols: map[string]*vrec{}}
 	nw := runtime.NumCPU()
 	if nw > 16 {
 		nw = 16
@@ -350,7 +416,7 @@ func main() {
 			bytesB[enc] += len(b)
 			label := en.Msg + "{" + en.Var + "}"
 			for _, op := range byteOps() {
-				shards = append(shards, shard{Kind: "bytes", Enc: enc, Entry: label, Base: hex.EncodeToString(b), Op: op, Alpha: alpha, })
+				shards = append(shards, shard{Kind: "bytes", Enc: enc, Entry: label, Base: hex.EncodeToString(b), Op: op, Alpha: alpha})
 			}
 			// the valid encoding itself (self-consistency and size gate of the unmutated input)
 			shards = append(shards, shard{Kind: "single", Enc: enc, Entry: label, Base: hex.EncodeToString(b), Gate: true})
@@ -402,6 +468,7 @@ func main() {
 		fmt.Fprintln(os.Stderr, "ENGINE-ERROR:", r.engErr)
 		os.Exit(2)
 	}
+	r.flush()
 
 	rule := "byte level, bounded-exhaustive: (a) every byte string of length <= " + fmt.Sprint(maxLen["protobuf"]) + " (protobuf) / <= " + fmt.Sprint(maxLen["json"]) + " (JSON); " +
 		"(b) for every distinct valid encoding of the C11 one-at-a-time corpus (at most " + fmt.Sprint(capLen["protobuf"]) + " / " + fmt.Sprint(capLen["json"]) + " bytes): every truncation, every single byte substitution (" + fmt.Sprint(alpha) +
@@ -409,27 +476,28 @@ func main() {
 		"(c) for every message shape (base value of every message type and of every oneof variant): every structure aware single mutation of the parsed protobuf field tree and of the JSON tree " +
 		"(drop/duplicate a field, varint 0/max, length -1/+1/2^31/2^64-1, wire type swap, uuid of 0/15/17 bytes, malformed uuid strings, enum -1/first unused/255/max int32 and unknown names, absent/doubled oneof, " + fmt.Sprint(huge["protobuf"]) + " / " + fmt.Sprint(huge["json"]) + " copies of a repeated element or map entry, " +
 		"unknown fields, null / wrong JSON type, out of range numbers)" + map[bool]string{true: " and every pair of them (huge counts excepted)", false: ""}[e.Thorough()] +
-		". Oracle: no panic escapes DecodeFrom, it returns within 10 s (child process watchdog) and the process survives, the result is an error or a message, an accepted message re-encodes and decodes to itself, " +
+		". Oracle: no panic escapes DecodeFrom, it returns (child process watchdog: 10 s per call, confirmed with 60 s alone) and the process survives, the result is an error or a message, an accepted message re-encodes and decodes to itself, " +
 		"and through encoding.Transport with MaxMessageSize n in {1, len-1, len, len+1} an input longer than n yields ErrMessageTooLarge (families a, c-single and the valid encodings themselves). " +
 		"The frame level part of C12 (frames through the wire connection's read path) is NOT decided here (needs the scheduler)."
 	extra := map[string]any{
-		"corpus_entries":                  len(corpus),
-		"corpus_entries_mutated_bytewise": entriesB,
-		"corpus_bytes_mutated_bytewise":   bytesB,
-		"corpus_entries_above_length_cap": excludedLarge,
-		"message_shapes":                  shapes,
-		"shards":                          r.shards,
-		"inputs_accepted_as_message":      r.decoded,
-		"accepted_by_message_type":        r.types,
-		"size_gate_checks":                r.gates,
-		"child_hangs":                     r.hangs,
-		"child_deaths":                    r.deaths,
-		"child_processes":                 nw,
+		"corpus_entries":                   len(corpus),
+		"corpus_entries_mutated_bytewise":  entriesB,
+		"corpus_bytes_mutated_bytewise":    bytesB,
+		"corpus_entries_above_length_cap":  excludedLarge,
+		"message_shapes":                   shapes,
+		"shards":                           r.shards,
+		"inputs_accepted_as_message":       r.decoded,
+		"accepted_by_message_type":         r.types,
+		"size_gate_checks":                 r.gates,
+		"child_hangs":                      r.hangs,
+		"cases_over_10s_that_passed_alone": r.slow,
+		"child_deaths":                     r.deaths,
+		"child_processes":                  nw,
 	}
 	e.Finish(rule, true, extra, []string{
 		"decides the property for the enumerated neighbourhoods of valid encodings and for all short strings, not for all byte strings",
 		"the corpus is the C11 one-at-a-time grid as encoded by the library itself (protobuf map entries ordered by key to make the corpus deterministic)",
-		"10 s wall per input is treated as a hang",
+		"a call into the codec that takes more than 10 s, and more than 60 s when the input is re-run alone in a fresh process, is a hang",
 	})
 }
 
@@ -454,11 +522,49 @@ func weight(s shard) int {
 	return w
 }
 
+// violation buffers a violated case; flush reports, per signature, the case with the shortest input
+// (ties: family, corpus entry, case index) - independent of the scheduling of the shards.
 func (r *runner) violation(sig, detail string, rc replayCase) {
+	r.violationN(sig, detail, rc, 1<<30, 1)
+}
+
+type vrec struct {
+	detail string
+	rc     replayCase
+	size   int
+	count  int
+}
+
+func (v *vrec) key() string {
+	return fmt.Sprintf("%012d|%s|%s|%012d", v.size, v.rc.Shard.family(), v.rc.Shard.Entry, v.rc.Idx)
+}
+
+func (r *runner) violationN(sig, detail string, rc replayCase, size, count int) {
 	r.mu.Lock()
+	defer r.mu.Unlock()
 	r.seen = append(r.seen, sig+": "+detail)
-	r.mu.Unlock()
-	r.e.Violation(sig, detail, rc)
+	n := &vrec{detail, rc, size, count}
+	if o := r.viols[sig]; o != nil {
+		n.count += o.count
+		if o.key() < n.key() {
+			n.detail, n.rc, n.size = o.detail, o.rc, o.size
+		}
+	}
+	r.viols[sig] = n
+}
+
+func (r *runner) flush() {
+	var sigs []string
+	for s := range r.viols {
+		sigs = append(sigs, s)
+	}
+	sort.Strings(sigs)
+	for _, s := range sigs {
+		v := r.viols[s]
+		for k := 0; k < v.count; k++ {
+			r.e.Violation(s, v.detail, v.rc)
+		}
+	}
 }
 
 // anyViolation reports whether a violation was recorded (replay verdict).
